@@ -107,16 +107,33 @@ func buildBase(v variant) *base {
 	if b, ok := baseMemo[v.id]; ok {
 		return b
 	}
-	b := buildBase0(v)
+	// two passes: the second shifts the timestamps from the block that is the tip's median-time block onwards by
+	// less than 512 s, so that (tip MTP - MTP before the fan-out block + 1) is a multiple of 512: a BIP68 time
+	// lock can then EQUAL the median time past to the second (the `>=` in SequenceLockActive)
+	b := buildBase0(v, 0, 0)
+	n := b.n
+	w := int32(11)
+	if n+1 < w {
+		w = n + 1
+	}
+	pivot := n - w + 1 + w/2
+	have := b.p.mtp() - b.p.mtpAt(b.fanH-1)
+	shift := (511 - have%512 + 512) % 512
+	if shift != 0 {
+		b = buildBase0(v, pivot, shift)
+	}
 	baseMemo[v.id] = b
 	return b
 }
 
-func buildBase0(v variant) *base {
+func buildBase0(v variant, pivot int32, shift int64) *base {
 	bs := &base{v: v, n: v.baseLen(), p: newPath(v), b: newBuilder(), cbTx: map[int32]chainhash.Hash{}}
 	bs.fanH = v.maturity + 1
 	for h := int32(1); h <= bs.n; h++ {
 		ts := v.baseTime() + int64(h)*blockSpacing
+		if shift != 0 && h >= pivot {
+			ts += shift
+		}
 		var txs []*wire.MsgTx
 		fees := int64(0)
 		if h == bs.fanH {
